@@ -15,7 +15,7 @@ from sa import AnalysisError, pat
 from sa import query as Q
 from sa.model import call_name, calls_in, src, walk_no_defs
 
-from .common import WEB_HTTP, loc, need
+from .common import http_func, WEB_HTTP, loc, need
 
 MIN_OBLIGATIONS = 14
 REJECTS = ('httperror', 'redirect', 'close')
@@ -35,7 +35,7 @@ def _run(repo, chk):
     chk.rule('C14.b', 'disconnect releases the (request, response) entry and the parser; parse-error rejects and the TLS probe drop the parser first')
     chk.rule('C14.c', 'HTTP handles `exception` for failed read handlers by firing a 500 httperror for a fresh Request/Response of that socket')
     chk.rule('C14.d', 'the parser error channel is consulted on every path on which the headers are not complete')
-    h = repo.func(WEB_HTTP, 'HTTP._on_read')
+    h = http_func(repo, 'HTTP._on_read')
     chk.touch(h)
     g = h.cfg()
     sock = h.params[1]
@@ -81,7 +81,7 @@ def _run(repo, chk):
         dyn = [k for k in c.keywords if k.arg in ('description', 'error') and not isinstance(k.value, ast.Constant)]
         chk.ob('f', h.ref, 'the description of a reject response is a constant', not dyn, loc(h, n.ast), detail='; '.join(f'{k.arg}={src(k.value)[:50]}' for k in dyn),
                discr=f'constant-description:{_case(n)}')
-    rs = repo.func(WEB_HTTP, 'HTTP._on_response')
+    rs = http_func(repo, 'HTTP._on_response')
     chk.touch(rs)
     gr = rs.cfg()
     hw = [n for n in gr.nodes if n.kind == 'stmt' and 'bytes(res)' in src(n.ast) and pat.fire_calls(n.ast)]
@@ -133,7 +133,7 @@ def _run(repo, chk):
     ok = bool(mk) and all(src(n.ast.value.args[0]) == sock for n in mk if isinstance(n.ast.value, ast.Call) and n.ast.value.args)
     chk.ob('d', h.ref, 'every Request built in _on_read is bound to the socket the data arrived on', ok, loc(h, h.node), discr='request-same-socket')
     # b: disconnect handler
-    dh = repo.func(WEB_HTTP, 'HTTP._on_disconnect')
+    dh = http_func(repo, 'HTTP._on_disconnect')
     chk.touch(dh)
     chk.ob('b', dh.ref, 'the release handler listens to disconnect', dh.handler is not None and 'disconnect' in dh.handler.names, loc(dh, dh.node),
            discr='is-disconnect-handler', nontrivial=False)
@@ -151,7 +151,7 @@ def _run(repo, chk):
         chk.ob('b', dh.ref, f'disconnect releases `self.{attr}[sock]` whenever it exists', p is None and bool(rel), loc(dh, dh.node),
                path=pat.path_lines(p) if p else None, discr=f'disconnect-releases:{attr}')
     # c: safety net
-    ex = repo.func(WEB_HTTP, 'HTTP._on_exception')
+    ex = http_func(repo, 'HTTP._on_exception')
     chk.touch(ex)
     chk.ob('c', ex.ref, 'HTTP handles the exception event', ex.handler is not None and 'exception' in ex.handler.names, loc(ex, ex.node),
            discr='is-exception-handler', nontrivial=False)
@@ -207,7 +207,7 @@ def rule_g(repo, chk):
     okc = bool(cs) and all(src(v) == f.params[3] for n in cs for r, a, v in pat.attr_store(n.ast) if a == 'code') and \
         all(pat.guarded_by(g, n, pat.test_edge(lambda tt, pol: pat.fact_matches(pat.compare_fact(tt, pol), f.params[3], ('is not',), 'None'))) is None for n in cs)
     chk.ob('g', f.ref, 'the status is the code given to the constructor when one is given (else the class default)', okc, loc(f, f.node), discr='code-from-argument')
-    h = repo.func(WEB_HTTP, 'HTTP._on_httperror')
+    h = http_func(repo, 'HTTP._on_httperror')
     chk.touch(h)
     gh = h.cfg()
     ev, res = h.params[1], h.params[3]
@@ -239,7 +239,7 @@ def rule_h(repo, chk):
     """Across reads: the pending (request, response) entry lets later reads of the same message skip the header-phase decisions."""
     chk.rule('C14.h', 'a reject decided only on the first read of a message (inside the "no pending entry" branch) never leaves a pending entry or the parser '
                       'behind: later data for that message cannot skip the decision and reach the request fire')
-    h = repo.func(WEB_HTTP, 'HTTP._on_read')
+    h = http_func(repo, 'HTTP._on_read')
     g = h.cfg()
     sock = h.params[1]
     first = [e for n in g.nodes if n.kind == 'test' for e in n.succ
